@@ -174,8 +174,8 @@ def run_scenario(scen, build_model, day_start=None, day_end=None, max_steps=1000
     t0 = time.time()
     try:
         model = build_model(scen)
-        model._initialize()
         tr.model = model
+        model._initialize()
         if after_init:
             after_init(model, tr)
         while not model._clock_struct.model_is_finished and tr.n_steps < max_steps:
